@@ -6,6 +6,15 @@ VERIF = os.path.dirname(os.path.dirname(os.path.abspath(__file__)))
 ALL = ['C%02d' % i for i in range(1, 21)]
 
 CHECKS = {
+    'C01': dict(
+        category='model_checking', design='DESIGN.md section 4 C01, Appendix A',
+        technique='TLA+ spec of the format (Yanny: WriteDoc, SpecParse, Canon); TLC enumerates document families and checks SpecParse(WriteDoc(d))=Canon(d) plus '
+                  'necessity witnesses for each excluded text class; every document written through pydl\'s three writer entry points and read back (compared with TLC\'s Canon and '
+                  'bit for bit with the arrays written); the real writer\'s text is parsed by SpecParse in TLC (Trace_YannyRead) and must mean the document',
+        text='Bounded-exhaustive over structure and character classes: all scalar strings of length <=3 (4 thorough) over {a, blank, tab, #, ;, {, }}, all element pairs of length <=2, '
+             'all column lists of length <=2 (3) over 13 column kinds x 0..2 rows, table-name sets with substring/column-name collisions, header values of length <=3; '
+             'supported/unsupported dtype kinds; numeric fidelity by value classes and seeded random bit patterns (sampled).',
+        note='Trusted: TLC, character-list abstraction, numpy bit views. Numbers are opaque tokens in the spec, so float<->text fidelity is decided by the harness on bit patterns.'),
     'C02': dict(
         category='model_checking', design='DESIGN.md section 4 C02, Appendix A',
         technique='TLA+ spec of the parameter-file format (Yanny: reference reader SpecParse, Canon, Render* state machine); TLC enumerates renderings of '
